@@ -254,6 +254,30 @@ test-group = 'g1'
         sc.timeout_s = 60
         sc.meta = {"tests": tests, "retries": 0, "threads": 2, "heavy": False, "group_m": 4, "group_r": None, "grace": GRACE, "delay_ms": 0, "backoff": "fixed", "run_ignored": "default", "extra": False, "store_s": False, "store_f": True}
         return sc
+    if k == 11:
+        # fixed scenario (corpus): nothing is selected (every listed test is ignored and --run-ignored is the default): every listed
+        # test must still be reported skipped, and the run ends with "no tests to run"
+        w = lambda ms_: {"kind": "pass", "acts": [f"work:{ms_}", "exit:0"], "out": None, "err": None, "expect": "P"}
+        tests = [{"bin": "t_one", "pkg": "alpha", "name": "ign_a", "ignored": True, "attempts": [w(10)]},
+                 {"bin": "t_one", "pkg": "alpha", "name": "ign_b", "ignored": True, "attempts": [w(10)]},
+                 {"bin": "t_two", "pkg": "alpha", "name": "ign_c", "ignored": True, "attempts": [w(10)]}]
+        for t in tests: sc.test(t["bin"], t["name"], {"1": t["attempts"][0]["acts"]}, ignored=t["ignored"])
+        sc.config = '''[profile.default]
+retries = 0
+test-threads = 2
+fail-fast = false
+status-level = "all"
+final-status-level = "all"
+failure-output = "never"
+success-output = "never"
+[profile.default.junit]
+path = "@JUNIT@"
+'''
+        sc.cli = []
+        sc.env = {}
+        sc.timeout_s = 60
+        sc.meta = {"tests": tests, "retries": 0, "threads": 2, "heavy": False, "group_m": None, "group_r": None, "grace": GRACE, "delay_ms": 0, "backoff": "fixed", "run_ignored": "default", "extra": False, "store_s": False, "store_f": True}
+        return sc
     if k == 10:
         # fixed scenario (corpus): an ignored (hence skipped) test that sorts ahead of the runnable ones on 3 test threads: a skipped
         # test holds no slot, so the two tests that run get global slots 0 and 1
